@@ -132,8 +132,8 @@ P['C01'] = dict(
 
 P['C02'] = dict(
   design_ref='DESIGN.md section 3 C02',
-  level_text='(A) One-step induction on the real DetailedPlacement: from an ARBITRARY legal placement (symbolic segments, widths, positions; built by the real constructor) any single swap or insert accepted by canSwap/canInsert leaves a state for which check() passes and the directly stated invariant holds (inside segment, no overlap, y = row y, ignored cells untouched, widths unchanged, orientation prescribed and never INVALID) - hence every sequence of moves. (D) the shift pass runShiftsOnCells under the network-simplex contract (any optimal dual solution of the graph the repository built, characterised by dual feasibility + a complementary primal flow): ordering, spacing and row boundaries kept, cells outside the window untouched, for full and partial windows. (R) the row reordering pass runReorderingOnCells (real RowReordering branch and bound) on a four-cell window over two stacked rows: it does not fail, the checks of the repository pass, the exported placement is legal including polarity/orientation, and cells outside the window do not move. (E, thorough) Circuit::placeDetailed end to end with a callback evaluating the legality predicate at every Detailed step and on return.',
-  text=dict(bounds=dict(quick='A: 2 segments (split row or stacked, N/FS), 3 cells incl. an optionally ignored one, widths 1..6, positions symbolic, cell 0 any polarity; R: rows N/FS/N of symbolic width 24..48, window on rows 0-1 or 1-2, 2+2 window cells (widths 3,5,2,4) at symbolic offsets 0..6, with or without a boundary cell ending each row, cell 0 ANY or the restrictive polarity of its row, fixed terminal at a symbolic position (also over the rows); E: see harness list', thorough='A: 4 cells'),
+  level_text='(A) One-step induction on the real DetailedPlacement: from an ARBITRARY legal placement (symbolic segments, widths, positions; built by the real constructor) any single swap or insert accepted by canSwap/canInsert leaves a state for which check() passes and the directly stated invariant holds (inside segment, no overlap, y = row y, ignored cells untouched, widths unchanged, orientation prescribed and never INVALID) - hence every sequence of moves. (D) the shift pass runShiftsOnCells under the network-simplex contract (any optimal dual solution of the graph the repository built, characterised by dual feasibility + a complementary primal flow): ordering, spacing and row boundaries kept, cells outside the window untouched, for full and partial windows. (R) the row reordering pass runReorderingOnCells (real RowReordering branch and bound) on a four-cell window over two stacked rows: it does not fail, the checks of the repository pass, the exported placement is legal including polarity/orientation, and cells outside the window do not move. (W) the window drivers runShifts and runReordering (row neighbourhoods, overlapping windows) called with arbitrary numbers of rows (1..3) and maximum cells (2, 3, 5) on a three-row placement neither fail nor leave an illegal placement nor increase the wirelength. (E, thorough) Circuit::placeDetailed end to end with a callback evaluating the legality predicate at every Detailed step and on return.',
+  text=dict(bounds=dict(quick='A: 2 segments (split row or stacked, N/FS), 3 cells incl. an optionally ignored one, widths 1..6, positions symbolic, cell 0 any polarity; R: rows N/FS/N of symbolic width 24..48, window on rows 0-1 or 1-2, 2+2 window cells (widths 3,5,2,4) at symbolic offsets 0..6, with or without a boundary cell ending each row, cell 0 ANY or the restrictive polarity of its row, fixed terminal at a symbolic position (also over the rows); W: 3 rows of width 30, 2+2+1 cells, concrete positions for the shift windows, symbolic start and terminal for the reordering windows; E: see harness list', thorough='A: 4 cells'),
             outside='more cells/segments; network simplex internals (modelled by contract); more than one pass end to end'),
   assumptions=STD_ASSUME + [BOOST_ASSUME, LEMON_ASSUME],
   harnesses=[
